@@ -403,23 +403,22 @@ def check_complete_input(ctx, lib):
     b = ctx.fn(P + "parse", rule=rule)
     if b is None:
         return
+    # spelling-independent (and_then closure, `?`, match): one expr(0); a result is Ok only under "the next token is Eof",
+    # and then it is exactly what expr(0) produced; every other continuation of that test ends in an error
     o = Origins(b, lib)
-    calls = [t for _, t in b.calls()]
-    names = [t["callee"] for t in calls]
-    ok = names == [P + "expr", "std::result::Result::<T, E>::and_then"] and o.of_operand(calls[0]["args"][1]) == {("const", 0)}
-    clos = lib.closures_of(P + "parse")
-    ok = ok and len(clos) == 1
+    ex = [t for _, t in b.calls() if t["callee"] == P + "expr"]
+    ok = len(ex) == 1 and o.of_operand(ex[0]["args"][1]) == {("const", 0)}
     if ok:
-        c = clos[0]
-        tp = TokenPaths(lib, c)
-        co = Origins(c, lib)
-        oks = [(bb, s) for bb, _, s in region_aggs(c, c.reachable(), "std::result::Result") if s["rv"]["variant"] == "Ok"]
+        tp = TokenPaths(lib, b)
+        oks = [(bb, s) for bb, _, s in region_aggs(b, b.reachable(), "std::result::Result") if s["rv"]["variant"] == "Ok"]
         sw = [(blk, t[1]) for blk, t in tp.tests.items() if t[0] == "peek-discr"]
-        ok = len(oks) == 1 and len(sw) == 1
+        ok = len(oks) >= 1 and len(sw) == 1
         if ok:
             blk, ve = sw[0]
-            ok = set(ve["edges"]) == {"Eof"} and edge_dominates(c, (blk, ve["edges"]["Eof"]), oks[0][0]) and \
-                err_only(c, only_via(c, (blk, ve["otherwise"]))) and co.of_operand(oks[0][1]["rv"]["ops"][0]) == {("param", 2)}
+            ok = set(ve["edges"]) == {"Eof"} and err_only(b, only_via(b, (blk, ve["otherwise"])))
+            for bb, st in oks:
+                val = o.of_operand(st["rv"]["ops"][0])
+                ok = ok and edge_dominates(b, (blk, ve["edges"]["Eof"]), bb) and bool(val) and all(t[0] == "call" and t[1] == P + "expr" for t in val)
     ctx.check(ok, rule, "parse", "Parser::parse = expr(0) and then Ok(result) only if the next token is Eof; anything left over is an error", b.span)
     pf = ctx.fn("parser::parse", rule=rule)
     if pf is not None:
